@@ -214,7 +214,7 @@ func drawSameDoc(t *rapid.T, col int, inRequest bool) []Op {
 func drawOp(t *rapid.T, fault bool, gqlCol int) Op {
 	var op Op
 	switch k := rapid.IntRange(0, 99).Draw(t, "opclass"); {
-	case k < 46:
+	case k < 42:
 		op = drawSimple(t, false)
 	case k < 58:
 		// several commits of one document in one transaction or one request
@@ -226,7 +226,7 @@ func drawOp(t *rapid.T, fault bool, gqlCol int) Op {
 			op = Op{Kind: "multi", Sub: drawSameDoc(t, col, true)}
 		} else {
 			op = Op{Kind: "txn", Sub: drawSameDoc(t, col, false)}
-			op.Commit = rapid.IntRange(0, 9).Draw(t, "commit") < 8
+			op.Commit = rapid.IntRange(0, 9).Draw(t, "commit") < 9
 		}
 	case k < 78:
 		op = Op{Kind: "txn", Sub: drawSteps(t, false, 1, 3)}
